@@ -78,7 +78,8 @@ func (m *Type) Clone(reuse *Type) *Type {
 
 	if reuse != nil {
 		if len(reuse.stack) < newStackSize {
-			reuse.growStack(newStackSize - len(reuse.stack))
+			// not growStack: that decides by the stale stack pointer of the recycled memory
+			reuse.stack = append(reuse.stack, make([]value.Type, newStackSize-len(reuse.stack))...)
 		}
 		newStack = reuse.stack
 	} else {
